@@ -26,7 +26,7 @@ def run(ctx):
                'a zero-byte output file means no records')
     ctx.require_events('split:checked', 'metadata:checked')
     ctx.require_regimes('all-good', 'all-bad', 'mixed', 'criterion:chi', 'criterion:cpd', 'names:auto', 'names:explicit', 'input:file', 'input:list',
-                        'best:nan', 'best:inf', 'n_data=1', 'flag-4-points', 'nan-suffix', 'names:mixed', 'outputs:re-used-names')
+                        'best:nan', 'best:inf', 'n_data=1', 'flag-4-points', 'nan-suffix', 'names:mixed', 'outputs:re-used-names', 'flags-changed-after-n_data-was-read')
     d = ctx.newdir('c18')
     n_models, nb = 5, 8
     names = gen.model_names(rng, n_models, 'num')
@@ -78,6 +78,17 @@ def run(ctx):
                 info.keep(('N', int(rng.integers(1, n_models + 1))))
             if rng.random() < 0.5:
                 info.model_fluxes = None
+            if nfit >= 2 and rng.random() < 0.3:
+                # the number of fitted points was looked at once (e.g. to vet the source), then one point was un-flagged:
+                # "per fitted point" is about the flags the record carries when it is filtered
+                _ = info.source.n_data
+                v2_ = np.array(info.source.valid, copy=True)
+                v2_[int(np.where((v2_ == 1) | (v2_ == 4))[0][0])] = 0
+                if rng.random() < 0.5:
+                    info.source.valid = v2_
+                else:
+                    info.source.valid[:] = v2_
+                ctx.regime('flags-changed-after-n_data-was-read')
             infos.append(info)
         path = os.path.join(d, 'in_%d.out' % ic)
         fo = FitInfoFile(path, 'w')
